@@ -79,7 +79,8 @@ CHECKS["C16"] = dict(
          "before the epoch, at it and 200 years later, with repeated readings; non-trivial = deprecated tuple whose sequence showed both a positive and a zero lifetime; distinct = the tuple",
     assumptions=["the clock is injected through TimeNow; that Parse hands the epoch to the plugins is checked by C02; that main passes time.Now() is covered by tier R"],
     parts=[dict(name="countdown", pkg="internal/plugin", test="TestVerifC16", shards=S8),
-           dict(name="prepare", pkg="internal/plugin", test="TestVerifC16Prepare", shards={"quick": 2, "thorough": 2})],
+           dict(name="prepare", pkg="internal/plugin", test="TestVerifC16Prepare", shards={"quick": 2, "thorough": 2}),
+           dict(name="transmit", pkg="internal/corerad", test="TestVerifC06", shards={"quick": 8, "thorough": 8}, gomaxprocs=1, gogc_off=True, env={"VERIF_PROP": "C16", "VERIF_PART": "det"})],
 )
 
 CHECKS["C12"] = dict(
